@@ -98,9 +98,42 @@ package meta
 //@   ensures forall k :: 0 <= k && k < len(result) ==> isRefMatch(e, e.longest, haystack, result[k][0], result[k][1])
 //@   ensures forall k :: 0 <= k && k + 1 < len(result) ==> result[k][1] <= result[k+1][0] && result[k][0] < result[k+1][0]
 //@   ensures (base(result) == base(results) && results != nil) || fresh(result)
+//@   ensures forall k :: 0 <= k && k < len(result) ==> 0 <= result[k][0] && result[k][0] <= result[k][1] && result[k][1] <= len(haystack)
+//@   ensures n > 0 ==> len(result) <= n
 //@   loop 1: invariant 0 <= pos && pos <= len(haystack) && len(results) <= pos && lastMatchEnd <= pos && state != nil && (n <= 0 || len(results) <= n)
 //@   loop 1: invariant len(results) + cnt(e, e.longest, haystack, pos, lastMatchEnd, ite(n <= 0, -1, n - len(results))) == cnt(e, e.longest, haystack, 0, -1, ite(n <= 0, -1, n))
-//@   loop 1: invariant forall k :: 0 <= k && k < len(results) ==> isRefMatch(e, e.longest, haystack, results[k][0], results[k][1]) && results[k][1] <= pos && results[k][0] < pos
+//@   loop 1: invariant forall k :: 0 <= k && k < len(results) ==> isRefMatch(e, e.longest, haystack, results[k][0], results[k][1]) && results[k][1] <= pos && results[k][0] < pos && 0 <= results[k][0] && results[k][0] <= results[k][1] && results[k][1] <= len(haystack)
 //@   loop 1: invariant forall k :: 0 <= k && k + 1 < len(results) ==> results[k][1] <= results[k+1][0] && results[k][0] < results[k+1][0]
 //@   loop 1: invariant (base(results) == base(old(results)) && old(results) != nil) || fresh(results)
 //@   loop 1: exit len(results) == cnt(e, e.longest, haystack, 0, -1, ite(n <= 0, -1, n))
+
+//@ trusted func (*Engine).IsMatch
+//@   requires engineOK(e)
+//@   modifies @searchState
+//@   ensures result == refFound(e, e.longest, haystack, 0)
+
+//@ trusted func (*Engine).FindIndicesAt
+//@   requires engineOK(e) && 0 <= at
+//@   modifies @searchState
+//@   ensures at <= len(haystack) ==> found == refFound(e, e.longest, haystack, at)
+//@   ensures found ==> at <= len(haystack) && start == refStart(e, e.longest, haystack, at) && end == refEnd(e, e.longest, haystack, at)
+//@   ensures !found ==> start == -1 && end == -1
+
+// first-byte rejection filter for start-anchored patterns (C19): a true answer means no match exists (ASSUMED)
+//@ trusted func (*Engine).IsStartAnchoredWithFirstByteReject
+//@   requires engineOK(e)
+//@   ensures result ==> !refFound(e, e.longest, haystack, 0)
+
+// the character-class streaming path is a specialised searcher (C19); the reference equalities below are stated
+// for the generic loop, the streaming path only contributes shape facts here
+//@ spec func genericEnum(e *Engine) bool = e.strategy != UseCharClassSearcher || e.charClassSearcher == nil
+//@ func (*Engine).FindAllIndicesStreaming
+//@   props C04 C11 C07
+//@   requires engineOK(e) && len(haystack) <= 140737488355328
+//@   modifies results[*], @searchState
+//@   ensures genericEnum(e) ==> len(result) == cnt(e, e.longest, haystack, 0, -1, ite(n <= 0, -1, n))
+//@   ensures genericEnum(e) ==> (forall k :: 0 <= k && k < len(result) ==> isRefMatch(e, e.longest, haystack, result[k][0], result[k][1]))
+//@   ensures forall k :: 0 <= k && k < len(result) ==> 0 <= result[k][0] && result[k][0] <= result[k][1] && result[k][1] <= len(haystack)
+//@   ensures n > 0 ==> len(result) <= n
+//@   ensures forall k :: 0 <= k && k + 1 < len(result) ==> result[k][1] <= result[k+1][0] && result[k][0] < result[k+1][0]
+//@   ensures (base(result) == base(results) && results != nil) || fresh(result)
